@@ -384,7 +384,11 @@ def check_operators(model, rep, oracle):
         ok = '__DISPATCH_TABLE.get(' in txt and 'return NotImplemented' in txt
         rep.ob('R20.3', fn.key, fn.where(), ok, f'{name} looks the operation up in the dispatch table' if ok else f'{name} no longer consults the dispatch table', statement=f'{name}-lookup')
     uf = q.members['__array_ufunc__'].func
-    ok = any(isinstance(s, ast.If) and src(s.test) == "method != '__call__'" for s in uf.body)
+    # on every path that hands the call on to a table entry the method is known to be '__call__' (whichever way the guard is written)
+    from sa.guards import path_returns
+    rets_ = path_returns(uf.node)
+    handed = [(f_, r_) for f_, r_ in rets_ if src(r_) != 'NotImplemented']
+    ok = bool(handed) and all(f_.get("method != '__call__'") is False or f_.get("method == '__call__'") is True for f_, r_ in handed)
     rep.ob('R20.3', uf.key, uf.where(), ok, 'ufunc methods other than __call__ (reduce, accumulate, ...) are declined' if ok else 'ufunc reduce/accumulate are no longer declined', statement='ufunc-call-only')
     # __format__ and __iter__ and __hash__
     it = q.members['__iter__'].func
